@@ -323,6 +323,57 @@ for m, body in blocks(reg_src, r'\nimpl\s+(\w+)\s*\{'):
                 die('%s::%s: unexpected extra arms' % (reg, fn))
         enum_rows.append((reg, fn, ty, rows))
 
+# ---------------------------------------------------------------- decoders (fn(&self) -> bool | Enum)
+def mask_expr(reg, e):
+    """Self::A | Self::A.union(Self::B)... -> int"""
+    v = P(tokenize(e), reg, None).expr()
+    if set(v.keys()) != {()} or v[()] is None or v[()][0] != 0:
+        die('%s: mask expression is not a constant: %s' % (reg, e))
+    return v[()][1]
+
+
+dec_bool, dec_if, dec_table = [], [], []
+for m, body in blocks(reg_src, r'\nimpl\s+(\w+)\s*\{'):
+    reg = m.group(1)
+    if reg not in MASKS:
+        continue
+    for fm, fb in blocks(body, r'pub\s+(?:const\s+)?fn\s+(\w+)\s*\(([^)]*)\)\s*->\s*(\w+)\s*\{'):
+        fn, args, ret = fm.group(1), fm.group(2), fm.group(3)
+        if ret == 'Self':
+            continue
+        if not re.fullmatch(r'\s*&?self\s*', args):
+            die('%s::%s: decoder with arguments' % (reg, fn))
+        b = ' '.join(fb.split())
+        mm = re.fullmatch(r'self\.intersects\((.*)\)', b)
+        if mm and ret == 'bool':
+            dec_bool.append((reg, fn, mask_expr(reg, mm.group(1))))
+            continue
+        mm = re.fullmatch(r'if self\.intersects\((.*?)\) \{ (\w+)::(\w+) \} else \{ (\w+)::(\w+) \}', b)
+        if mm and mm.group(2) == ret and mm.group(4) == ret and ret in ENUMS:
+            dec_if.append((reg, fn, ret, mask_expr(reg, mm.group(1)), ENUMS[ret].index(mm.group(3)), ENUMS[ret].index(mm.group(5))))
+            continue
+        mm = re.fullmatch(r'match \(?self\.intersection\((.*?)\)\)?\.bits\(\)(?: >> (\d+))? \{ (.*) \}', b)
+        if mm and ret in ENUMS:
+            mask = mask_expr(reg, mm.group(1))
+            shift = int(mm.group(2) or 0)
+            arms, default = [], None
+            for am in re.finditer(r'(0x[0-9A-Fa-f]+|\d+|_) => (\w+)::(\w+),?', mm.group(3)):
+                if am.group(2) != ret:
+                    die('%s::%s: arm of another type' % (reg, fn))
+                idx = ENUMS[ret].index(am.group(3))
+                if am.group(1) == '_':
+                    default = idx
+                else:
+                    arms.append((num(am.group(1)), idx))
+            if default is None:
+                die('%s::%s: no default arm' % (reg, fn))
+            dec_table.append((reg, fn, ret, mask, shift, arms, default))
+            continue
+        die('%s::%s: unsupported decoder body: %s' % (reg, fn, b))
+
+if len(dec_bool) < 25 or len(dec_if) < 3 or len(dec_table) < 2:
+    die('too few decoders recognised')
+
 if len(enum_rows) < 25 or len(bool_rows) < 50 or len(num_rows) < 30:
     die('too few encoders recognised: %d enum, %d bool, %d numeric' % (len(enum_rows), len(bool_rows), len(num_rows)))
 
@@ -354,6 +405,21 @@ for reg, fn, ty, tag, field, allmask in num_rows:
     out.append('def %s_%s : Nat × Nat × Nat × Nat := (%d, %d, 0x%02X, 0x%02X)  -- %s, %s' % (reg, fn, TY[ty], TAG[tag], field, allmask, ty, tag))
 out.append('')
 out.append('def counts : Nat × Nat × Nat := (%d, %d, %d)' % (len(enum_rows), len(bool_rows), len(num_rows)))
+out.append('')
+out.append('/-- bool decoders `self.intersects(MASK)`: the mask -/')
+for reg, fn, mask in dec_bool:
+    out.append('def %s_get_%s : Nat := 0x%02X' % (reg, fn, mask))
+out.append('')
+out.append('/-- `if self.intersects(MASK) { A } else { B }`: (mask, index of A, index of B) in declaration order of the enum -/')
+for reg, fn, ty, mask, a, b in dec_if:
+    out.append('def %s_get_%s : Nat × Nat × Nat := (0x%02X, %d, %d)  -- %s' % (reg, fn, mask, a, b, ty))
+out.append('')
+out.append('/-- `match (self & MASK) >> SHIFT { code => V, .., _ => D }`: (mask, shift, [(code, index of V)], index of D) -/')
+for reg, fn, ty, mask, shift, arms, default in dec_table:
+    out.append('def %s_get_%s : Nat × Nat × List (Nat × Nat) × Nat := (0x%02X, %d, [%s], %d)  -- %s' % (
+        reg, fn, mask, shift, ', '.join('(0x%02X, %d)' % a for a in arms), default, ty))
+out.append('')
+out.append('def decoderCounts : Nat × Nat × Nat := (%d, %d, %d)' % (len(dec_bool), len(dec_if), len(dec_table)))
 out.append('')
 out.append('end Enc')
 out.append('end Generated')
